@@ -216,6 +216,7 @@ def run_real(ops):
     s = sut()
     m = s.H.x86_machine()
     trace = []
+    reuse_cache = {}
     for op in ops:
         reset_budget()
         if op['op'] in ('store', 'load', 'multi'):
@@ -231,9 +232,39 @@ def run_real(ops):
             for k in list(m.pool):
                 m.pool[k] = s.X.expr_simp(m.pool[k])
             trace.append({'affs': ser})
+        elif op['op'] == 'block':
+            # several instructions handed to ONE emul_lines call
+            instrs, sers = [], []
+            for line in op['lines']:
+                hx = instr_bytes(line)
+                i = s.A.x86mnemo.dis(bytes.fromhex(hx))
+                j = s.A.x86mnemo.dis(bytes.fromhex(hx))
+                if i is None or is_rep_string(i):
+                    raise Discard('undecodable')
+                try:
+                    affs = s.H.get_instr_expr(j, s.E.ExprInt(s.MI.uint32(j.l)), [])
+                except Exception as e:
+                    raise Discard('raises:lift:' + type(e).__name__)
+                ser = [canon.ser_expr(a) for a in affs]
+                for a in ser:
+                    if refmodel.well_typed(a):
+                        raise Discard('ill-typed-lift:%s' % i.m.name)
+                instrs.append(i)
+                sers.append({'affs': ser, 'rep': False, 'name': i.m.name, 'prefix': list(i.prefix)})
+            try:
+                s.H.emul_lines(m, instrs)
+            except Budget:
+                raise Discard('budget')
+            except Exception as e:
+                raise Discard('raises:emul-block:%s' % type(e).__name__)
+            trace += sers
         elif op['op'] == 'insn':
             hx = op.get('hex') or instr_bytes(op['line'])
-            i = s.A.x86mnemo.dis(bytes.fromhex(hx))
+            if op.get('reuse') and hx in reuse_cache:
+                i = reuse_cache[hx]           # the SAME instruction object as an earlier step of this history
+            else:
+                i = s.A.x86mnemo.dis(bytes.fromhex(hx))
+                reuse_cache[hx] = i
             if i is None:
                 raise Discard('undecodable')
             j = s.A.x86mnemo.dis(bytes.fromhex(hx))
@@ -689,8 +720,23 @@ def gen_history(rng):
                 ops.append(op)
     elif mode == 'insn':
         pm = rng.choice([0.0, 0.15, 0.4])
-        for _ in range(n):
-            ops.append({'op': 'insn', 'line': gen_misc_line(rng) if rng.random() < pm else gen_move_line(rng)})
+        style = rng.choice(['single', 'single', 'block', 'reuse'])
+        lines = [gen_misc_line(rng) if rng.random() < pm else gen_move_line(rng) for _ in range(n)]
+        if style == 'block':
+            k = 0
+            while k < len(lines):
+                step = rng.choice([1, 2, 3, 4])
+                ops.append({'op': 'block', 'lines': lines[k:k + step]} if step > 1 else {'op': 'insn', 'line': lines[k]})
+                k += step
+        else:
+            if style == 'reuse' and len(lines) >= 2:
+                # repeat some instructions so that the same instruction object is stepped more than once
+                lines = lines + [rng.choice(lines) for _ in range(rng.randrange(1, 4))]
+            for line in lines:
+                op = {'op': 'insn', 'line': line}
+                if style == 'reuse':
+                    op['reuse'] = 1
+                ops.append(op)
     elif mode == 'string':
         ops += gen_string_program(rng, base)
     elif mode == 'flags':
